@@ -464,6 +464,10 @@ func parseTraversalStep(nativeStep hcl.Traverser, from inputTokens) (before inpu
 			key := newNumber(valToken)
 			step.key = children.Append(key)
 			children.AppendUnstructuredTokens(valAfter.Tokens())
+		default:
+			// Index keys of other types (a[true], a[null]) have no dedicated
+			// node type, but their tokens must still be retained.
+			children.AppendUnstructuredTokens(keyTokens.Tokens())
 		}
 
 		children.AppendUnstructuredTokens(cBrack.Tokens())
